@@ -59,6 +59,8 @@ func init() {
 		"(*bytes.Buffer).WriteRune":      mBufWriteRune,
 		"(*bytes.Buffer).String":         mBufString,
 		"(*bytes.Buffer).Len":            mBufLen,
+		"(*bytes.Buffer).Cap":            mBufCap,
+		"(*bytes.Buffer).Grow":           func(ex *Exec, args []Val) Val { return nil },
 		"(*bytes.Buffer).Reset":          mBufReset,
 		// the process environment as a fixed, empty stub: no variables set, no files present
 		"os.Getwd":     func(ex *Exec, a []Val) Val { return Tuple{cstr("/"), nil} },
@@ -679,6 +681,14 @@ func mBufString(ex *Exec, args []Val) Val {
 func mBufLen(ex *Exec, args []Val) Val {
 	cur, _ := (*bufCell(ex, args[0])).(Str)
 	ex.needBytes(cur, "buffer Len")
+	return goInt(len(cur.B))
+}
+
+// mBufCap: the capacity is not modelled; what is returned is the number of pieces held
+// (a lower bound of the length), which keeps "drop the buffer if it grew large"
+// tests on the small side
+func mBufCap(ex *Exec, args []Val) Val {
+	cur, _ := (*bufCell(ex, args[0])).(Str)
 	return goInt(len(cur.B))
 }
 
